@@ -18,7 +18,7 @@ if ! RUSTFLAGS="-Zsanitizer=address --cfg libtw2_verif" cargo +nightly build --r
     exit 2
 fi
 ASAN_BIN=$ASAN_DIR/x86_64-unknown-linux-gnu/release/tw2sim
-if [ "$tier" = "quick" ]; then runs_net=400; runs_other=1500; runs_slow=120; else runs_net=20000; runs_other=40000; runs_slow=4000; fi
+if [ "$tier" = "quick" ]; then runs_net=400; runs_other=1500; runs_slow=120; else runs_net=8000; runs_other=20000; runs_slow=1500; fi
 summary=""
 asan_total=0
 for p in C01 C02 C03 C04 C12 C13 C15 C16 C17 C18 C19 C20; do
